@@ -72,6 +72,11 @@ fn main() {
                 ops::replay(&fields[..cut], &mut out);
             }
         }
+        m if m.starts_with("exh-") => {
+            let shard: usize = args.get(2).and_then(|s| s.parse().ok()).unwrap_or(0);
+            let nshards: usize = args.get(3).and_then(|s| s.parse().ok()).unwrap_or(1);
+            ops::exhaustive(m, shard, nshards, &mut out);
+        }
         _ => {
             let seed: u64 = args.get(2).and_then(|s| s.parse().ok()).unwrap_or(1);
             let count: usize = args.get(3).and_then(|s| s.parse().ok()).unwrap_or(1000);
